@@ -44,11 +44,12 @@ type c04Config struct {
 
 func init() {
 	register(&Prop{ID: "C04", Run: c04Run,
-		Rule: "pairs of root containers A, B over a shared 6-key pool (B independent, or A after 1-4 local edits: key added/removed, leaf changed, kind swapped, list grown/shrunk/permuted), nulls with probability 0.2, lists of containers and lists of lists, both list strategies, B optionally sealed; overlay cases add 2-4 such documents as layers and read Merged(opts); config cases send defaults plus 1-3 override sources (YAML file, JSON file, map, dom container) through fluent.ConfigHelper. A case is non-trivial when the two sides (some two layers / sources) share at least one key; distinct = distinct canonical case JSON (hash).",
+		Rule: "pairs of root containers A, B over a shared 6-key pool (B independent, or A after 1-4 local edits: key added/removed, leaf changed, kind swapped, list grown/shrunk/permuted), nulls with probability 0.2, lists of containers and lists of lists, both list strategies, B optionally sealed; overlay cases add 2-4 such documents as layers and read Merged(opts); heap-merge cases build A and B (or 1-3 overlay layers) in one of seven ways (FromMap, AddValue/ListNode with own or shared nil leaves, AddContainer/AddList/Set/Append, subtrees shared inside and between the documents, containers with an add-and-remove history), encode the real object graph as an explicit heap by pointer identity, Merge / Merged, and compare the result's sharing map (which result node is which input object / a new object) with the heap model, snapshot the inputs pointer for pointer, then write in place to the merged containers of the result; config cases send defaults plus 1-3 override sources (YAML file, JSON file, map, dom container) through fluent.ConfigHelper. A case is non-trivial when the two sides (some two layers / sources) share at least one key; distinct = distinct canonical case JSON (hash).",
 		Assumptions: []string{
 			"scalars are NaN-free and -0-free; a leaf is null iff its Go value is nil (wire scalar {nil,<nil>})",
 			"keys come from a path-safe pool (no key ends in an index group: the API invariant discussed under D26)",
 			"ConfigHelper.Result() passes through a yaml.v3 encode/decode round trip; expected values are normalised through the same round trip (external library, contract validated by correspondence only)",
+			"heap tie: a node object is identified by the address its pointer holds (a sealed view and its builder are one object), a children map by the address of its header (Children() returns the map itself); item slices are not observable by identity and are covered by the in-place write probes; the overlay's internal layer roots are not reachable through the API, the given layer documents stand for them (same members)",
 		}})
 	evals["C04"] = c04Eval
 	shrinkers["C04"] = shrinkJSON
@@ -111,6 +112,8 @@ func c04Run(c *Ctx) {
 		}
 		c.Do("config", c04Config{Defaults: def, Sources: srcs})
 	}
+	// pointer level: the real object graph against the heap model's sharing map (heap_share.go)
+	heapMergeGen(c, g, second, opt, c.N(900))
 	if c.Thorough() && !c.searchMode {
 		all := c04EnumDocs()
 		c.Note("exhaustive scope: %d root containers of size <= 4 over keys {a,b}; all ordered pairs x both strategies", len(all))
@@ -118,6 +121,16 @@ func c04Run(c *Ctx) {
 			for _, y := range all {
 				c.Do("pair", c04Pair{A: x, B: y, Opt: "meld"})
 				c.Do("pair", c04Pair{A: x, B: y, Opt: "append"})
+			}
+		}
+		// every ordered pair at pointer level; strategy and build modes rotate over the pairs
+		for i, x := range all {
+			for j, y := range all {
+				o := "meld"
+				if (i+j)%2 == 1 {
+					o = "append"
+				}
+				c.Do("heap-merge", heapMergeCase{A: x, B: y, Opt: o, Build: (i + j) % heapBuildModes, BuildB: (i + 2*j) % heapBuildModes, Salt: i + j})
 			}
 		}
 	}
@@ -311,6 +324,8 @@ func c04YamlRT(v any) (any, error) {
 
 func c04Eval(c *Ctx, kind string, raw []byte) {
 	switch kind {
+	case "heap-merge":
+		heapMergeEval(c, raw)
 	case "pair":
 		var p c04Pair
 		if err := json.Unmarshal(raw, &p); err != nil {
